@@ -49,12 +49,16 @@ vars == <<lib, touched, hist, n, last>>
    place where it is written to the modified element, `attr` is the attribute
    ("value" = the unnamed binding).                                          *)
 Mod(p, a, v)    == [path |-> p, attr |-> a, val |-> v]
-Cmp(nm, ty, pre, mods) == [name |-> nm, type |-> ty, pre |-> pre, mods |-> mods]
-Ext(b, mods)    == [base |-> b, mods |-> mods]
+Cmp(nm, ty, pre, mods) == [name |-> nm, type |-> ty, txt |-> "", pre |-> pre, mods |-> mods]
+Ext(b, mods)    == [base |-> b, txt |-> "", mods |-> mods]
+(* `type` / `base` is always the class that the name resolves to; `txt` is how it is WRITTEN where that differs
+   (a name that goes through an import clause or is relative to the enclosing package) *)
+CmpAs(nm, ty, tx, pre, mods) == [name |-> nm, type |-> ty, txt |-> tx, pre |-> pre, mods |-> mods]
+ExtAs(b, tx, mods) == [base |-> b, txt |-> tx, mods |-> mods]
 Ali(nm, a, v)   == [name |-> nm, attr |-> a, val |-> v]        \* nested  type nm = Real(a = v)
 Cls(nm, k, exts, als, comps, eqs) ==
     [name |-> nm, kind |-> k, ext |-> exts, alias |-> als, comps |-> comps, eqs |-> eqs,
-     repl |-> <<>>, crefs |-> <<>>, uses |-> {}, algs |-> <<>>]
+     repl |-> <<>>, crefs |-> <<>>, uses |-> {}, algs |-> <<>>, pkg |-> "", bad |-> FALSE]
 (* further constructs: replaceable nested classes  replaceable model nm = def  (redeclared by a
    modification [path = <<nm>>, attr = "redeclare", val = target class]); constants read through a
    class path  var = cls.sym  (the referenced symbol is pulled into the flat model as "cls.sym");
@@ -65,12 +69,24 @@ WithRepl(c, r)  == [c EXCEPT !.repl = r]
 WithCRefs(c, r) == [c EXCEPT !.crefs = r]
 WithUses(c, u)  == [c EXCEPT !.uses = u]
 WithAlgs(c, a)  == [c EXCEPT !.algs = a]
+InPkg(p, c)     == [c EXCEPT !.pkg = p, !.name = p \o "." \o @]      \* class c declared inside package p
+Bad(c)          == [c EXCEPT !.bad = TRUE]                         \* flattening this class has to FAIL (also on a fresh parse)
+Pkg(nm, imps)   == [name |-> nm, imports |-> imps]
 
-NLibs == 9
+NLibs == 11
 
 LibName(i) == CASE i = 1 -> "conn" [] i = 2 -> "extmod" [] i = 3 -> "shadow"
                 [] i = 4 -> "alias" [] i = 5 -> "chain" [] i = 6 -> "mixed"
                 [] i = 7 -> "redecl" [] i = 8 -> "constref" [] i = 9 -> "func"
+                [] i = 10 -> "imports" [] i = 11 -> "broken"
+
+(* packages of a library with their import clauses (classes say with `pkg` where they live) *)
+LibPkgs(i) == IF i = 10 THEN << Pkg("P1", <<>>), Pkg("P2", <<>>),
+                                Pkg("M", <<"P1.*", "P2.*">>),               \* two unqualified imports
+                                Pkg("M2", <<"Q = P1.A", "P2.B">>) >>        \* a renaming and a qualified import
+              ELSE <<>>
+(* names that are requested although no such class exists *)
+Ghosts(i) == IF i = 11 THEN {"NoSuch"} ELSE {}
 
 LibDef(i) ==
   CASE i = 1 ->   \* connectors: a connector-typed symbol is rewritten to a string
@@ -154,6 +170,22 @@ LibDef(i) ==
        WithUses(Cls("H", "model", <<>>, <<>>, <<Cmp("g", "G", "", <<>>), Cmp("z", "Real", "", <<>>)>>,
                     <<"z = fn(g.y)">>), {"fn"}),
        Cls("K", "model", <<Ext("G", <<>>)>>, <<>>, <<Cmp("w", "Real", "", <<Mod(<<>>, "start", 2)>>)>>, <<"w = y">>) >>
+  [] i = 10 ->    \* classes found through import clauses of the enclosing package (the lookup caches what it found)
+    << InPkg("P1", Cls("A", "model", <<>>, <<>>, <<Cmp("x", "Real", "", <<Mod(<<>>, "start", 1)>>)>>, <<>>)),
+       InPkg("P1", Cls("A2", "model", <<>>, <<>>, <<Cmp("x2", "Real", "", <<>>)>>, <<>>)),
+       InPkg("P2", Cls("B", "model", <<>>, <<>>, <<Cmp("y", "Real", "", <<Mod(<<>>, "nominal", 2)>>)>>, <<>>)),
+       InPkg("M", Cls("U", "model", <<>>, <<>>,
+                      <<CmpAs("a", "P1.A", "A", "", <<>>), CmpAs("b", "P2.B", "B", "", <<Mod(<<"y">>, "nominal", 3)>>)>>, <<>>)),
+       InPkg("M", Cls("V", "model", <<ExtAs("M.U", "U", <<>>)>>, <<>>, <<Cmp("z", "Real", "", <<>>)>>, <<>>)),
+       InPkg("M2", Cls("U2", "model", <<>>, <<>>,
+                       <<CmpAs("q", "P1.A", "Q", "", <<>>), CmpAs("b", "P2.B", "B", "", <<>>)>>, <<>>)),
+       InPkg("M2", Cls("W", "model", <<>>, <<>>, <<Cmp("u", "M.U", "", <<>>), CmpAs("a2", "P1.A2", "P1.A2", "", <<>>)>>, <<>>)) >>
+  [] i = 11 ->    \* classes whose flattening FAILS (unknown component type, modification of a symbol that does not
+                  \* exist), next to good ones; together with the ghost name: failing requests at every position
+    << Cls("Good", "model", <<>>, <<>>, <<Cmp("x", "Real", "", <<Mod(<<>>, "start", 1)>>)>>, <<"x = 1">>),
+       Cls("Good2", "model", <<>>, <<>>, <<Cmp("g", "Good", "", <<>>)>>, <<>>),
+       Bad(Cls("BadType", "model", <<>>, <<>>, <<Cmp("m", "Missing", "", <<>>), Cmp("x", "Real", "", <<>>)>>, <<>>)),
+       Bad(Cls("BadMod", "model", <<>>, <<>>, <<Cmp("g", "Good", "", <<Mod(<<"xx">>, "value", 3)>>)>>, <<>>)) >>
 
 Range(s) == {s[k] : k \in DOMAIN s}
 L == LibDef(lib)
@@ -197,8 +229,9 @@ Rewrites(i, nm) ==
                  : e \in DOMAIN c.ext}
 
 (* constant tables (TLC evaluates a zero-arity constant definition once) *)
-ReadTab == [i \in LibIds |-> [nm \in ClassNames(i) |-> ReadObjs(i, nm)]]
-RewTab  == [i \in LibIds |-> [nm \in ClassNames(i) |-> Rewrites(i, nm)]]
+Targets(i) == ClassNames(i) \cup Ghosts(i)          \* what can be requested
+ReadTab == [i \in LibIds |-> [nm \in Targets(i) |-> IF nm \in ClassNames(i) THEN ReadObjs(i, nm) ELSE {}]]
+RewTab  == [i \in LibIds |-> [nm \in Targets(i) |-> IF nm \in ClassNames(i) THEN Rewrites(i, nm) ELSE {}]]
 
 RECURSIVE ReachesConnector(_, _)
 ReachesConnector(i, ty) ==
@@ -312,7 +345,7 @@ Request(nm, be) ==
                 seen |-> seen, mechs |-> Mechs(lib, seen)]
     /\ UNCHANGED lib
 
-Next == \E nm \in ClassNames(lib), be \in Backends : Request(nm, be)
+Next == \E nm \in Targets(lib), be \in Backends : Request(nm, be)
 
 Spec == Init /\ [][Next]_vars
 
@@ -334,8 +367,9 @@ SeenIsConflict ==
 (* sanity of the library shapes: every referenced class exists, dotted paths
    resolve, the reference semantics gives each class a nonempty flat model  *)
 ShapesOK ==
-    \A i \in LibIds : \A c \in Range(LibDef(i)) :
+    \A i \in LibIds : \A c \in {d \in Range(LibDef(i)) : ~d.bad} :
         /\ \A k \in DOMAIN c.ext : IsClassType(i, c.ext[k].base)
+        /\ c.pkg = "" \/ \E k \in DOMAIN LibPkgs(i) : LibPkgs(i)[k].name = c.pkg
         /\ \A k \in DOMAIN c.comps :
               \/ c.comps[k].type = "Real" \/ IsClassType(i, c.comps[k].type)
               \/ c.comps[k].type \in AliasNames(c) \/ c.comps[k].type \in ReplNames(c)
@@ -355,6 +389,6 @@ Log == PrintT(<<"TR", ToJson([src |-> [lib |-> lib, touched |-> touched],
 ASSUME ShapesOK
 (* the library shapes themselves, handed to the renderer (one line per shape) *)
 ASSUME \A i \in LibIds :
-    PrintT(<<"LIB", ToJson([id |-> i, name |-> LibName(i), classes |-> LibDef(i),
-                            flat |-> [c \in ClassNames(i) |-> FlatOf(i, c)]])>>)
+    PrintT(<<"LIB", ToJson([id |-> i, name |-> LibName(i), classes |-> LibDef(i), pkgs |-> LibPkgs(i),
+                            flat |-> [c \in {d.name : d \in {x \in Range(LibDef(i)) : ~x.bad}} |-> FlatOf(i, c)]])>>)
 =============================================================================
